@@ -481,7 +481,12 @@ pub fn check_failure(spec: &AppSpec, k: usize, route: &RouteInfo, plan: &[(Strin
     let is_eh = |name: &str| spec.comps.iter().enumerate().any(|(i, c)| matches!(c.kind, CompKind::ErrHandler { .. }) && comp_name(k, i) == name);
     let is_obs = |name: &str| spec.comps.iter().enumerate().any(|(i, c)| c.kind == CompKind::Observer && comp_name(k, i) == name);
     let is_post = |name: &str| spec.comps.iter().enumerate().any(|(i, c)| c.kind == CompKind::Post && comp_name(k, i) == name);
-    let want_eh = model::resolve_err_handler(spec, &[], err_ty);
+    // (a handler attached to the registration of the failing constructor takes precedence)
+    let specific = failed_type.and_then(|t| if failed == ctor_name(k, t, 0) { spec.types[t].specific_eh } else { None });
+    let want_eh = specific.or_else(|| model::resolve_err_handler(spec, &[], err_ty));
+    if specific.is_some() {
+        labels.push("component-specific-error-handler".to_string());
+    }
     let want_obs: Vec<String> = route.observers.iter().map(|o| comp_name(k, *o)).collect();
     for (n, fp) in fail_positions.iter().enumerate() {
         let seg_end = fail_positions.get(n + 1).copied().unwrap_or(e.len());
